@@ -10,6 +10,7 @@ import (
 	"strconv"
 
 	"9probe15/q"
+	"9probe15/q2"
 )
 
 type MT struct{ X int }
@@ -245,6 +246,23 @@ var units = []struct {
 		p(tl(reflect.TypeOf(q.Box[func(int) string]{})))
 		p(tl(reflect.TypeOf(q.Box[interface{ M() }]{})))
 		p(tl(reflect.TypeOf(q.Box[map[string]*q.Tagged]{})))
+	}},
+	{"aliasid", func() {
+		p("field type " + q2.Use() + " SliceOf identity " + b2s(q.SliceIdentity()))
+	}},
+	{"recfunc2", func() {
+		r, real := q.RecOffsets()
+		p("offsets match " + b2s(r[1] == real[1] && r[2] == real[2]) + " Z read through reflect " + b2s(r[0] == real[0]))
+	}},
+	{"recfunc", func() {
+		x := q.RF{F: func() int { return 1 }, Next: &q.RF{Z: 5}, Z: 7}
+		v := reflect.ValueOf(x)
+		t := v.Type()
+		p("recursive: offsets ordered=" + b2s(t.Field(1).Offset >= t.Field(0).Offset+t.Field(0).Type.Size()) + " Z=" + fmt.Sprint(v.Field(2).Int()) + " NextNil=" + b2s(v.Field(1).IsNil()) + " Next.Z=" + fmt.Sprint(v.Field(1).Elem().Field(2).Int()))
+		y := q.NRF{F: func() int { return 1 }, Z: 7}
+		w := reflect.ValueOf(y)
+		u := w.Type()
+		p("plain: offsets ordered=" + b2s(u.Field(1).Offset >= u.Field(0).Offset+u.Field(0).Type.Size()) + " Z=" + fmt.Sprint(w.Field(2).Int()) + " PNil=" + b2s(w.Field(1).IsNil()))
 	}},
 	{"chanparen", func() {
 		p(reflect.TypeOf((chan (<-chan int))(nil)).String())
